@@ -440,6 +440,12 @@ func linCases() map[string]linCase {
 	chain := as[4]
 	out["lin/chain-delete/get"] = linCase{progs: []linProg{{"a (two chains installed): [DELETE v4, DELETE g1, DELETE nh1]", chain.steps[2:]}, reader},
 		pre: [][]linStep{append(append([]linStep{}, chain.steps[:2]...), bs[1].steps[1])}}
+	// ... and the writer re-ADDs an installed entry (an implicit replace, with and without metadata): the entry is
+	// installed before, during and after - no Get may miss it
+	readd := linProg{"a (chain installed): [ADD v4 again with metadata]; [ADD v4 again without]", []linStep{
+		{kind: 'M', ops: []linOp{{"v4 meta", D, spb.AFTOperation_ADD, ribx.V4Entry("10.0.0.0/8", 1, "", []byte{7})}}},
+		{kind: 'M', ops: []linOp{{"v4", D, spb.AFTOperation_ADD, ribx.V4Entry("10.0.0.0/8", 1, "", nil)}}}}}
+	out["lin/readd/get"] = linCase{progs: []linProg{readd, reader}, pre: [][]linStep{chain.steps[:2]}}
 	// (Sessions that NEGOTIATE at the same time are deliberately not part of this tier: the reference server refuses
 	// session parameters while any other live session has not negotiated yet - which the property leaves open, see
 	// the C09 oracle - so two sessions that open and negotiate simultaneously can both be refused, an outcome that no
@@ -463,6 +469,18 @@ func RunC04Concurrent(rep *report.Report, tier string) {
 	var parts []string
 	for _, k := range linParts(tier) {
 		if strings.Count(k, "/") == 3 && strings.Contains(k, "/c") || k == "lin/0/0" || k == "lin/3/2" {
+			parts = append(parts, k)
+		}
+	}
+	rep.Shards(parts, 16, nil)
+}
+
+// RunC07Concurrent runs the reader cases of the concurrent-sessions tier under the C07 command: what a Get returns
+// while a writer works must be the installed entries of ONE instant of some sequential order.
+func RunC07Concurrent(rep *report.Report, tier string) {
+	var parts []string
+	for _, k := range linParts(tier) {
+		if strings.HasSuffix(k, "/get") {
 			parts = append(parts, k)
 		}
 	}
